@@ -62,7 +62,12 @@ func ruleC10ShortRead(c *Ctx) {
 						continue
 					}
 					for _, iff := range iffs {
-						good, why := c.edgeLeavesWithError(iff.Block(), iff.Block().Succs[1])
+						// the edge on which ok is false (`if ok` or `if !ok`)
+						endEdge := iff.Block().Succs[1]
+						if _, asWritten := normCond(iff.Cond, true); !asWritten {
+							endEdge = iff.Block().Succs[0]
+						}
+						good, why := c.edgeLeavesWithError(iff.Block(), endEdge)
 						if good {
 							c.hold("C10.short-read", key+":ended-early", iff.Pos(), "ok==false leaves with a non-nil error")
 						} else {
